@@ -14,9 +14,11 @@ THEOREMS = [
     ('EAO.Properties.C18', 'EAO.C18.price_supergradient', 'for multipliers carrying minus the reported prices on the nodal rows: every point feasible after an injection d at a (node, step) has value <= V + price*d + gap, gap = exact Lagrangian gap of the reported optimum'),
 ]
 from ..comp import pricesplit as PS
+from ..comp import pricelive as PL
 THEOREMS = THEOREMS + PS.THEOREMS_C18_SPLIT
 COMPONENTS = ['nodalPrices vs io.extract_output["prices"]', 'assemble nodal record', 'exact Lagrangian gap of the reported price table (driver op lagrangian)',
-              'nodal record: as many rows of type N as entries of map_nodal_restr, all after the last asset row (else duals[N] cannot be read along the record)']
+              'nodal record: as many rows of type N as entries of map_nodal_restr, all after the last asset row (else duals[N] cannot be read along the record)',
+              'held problem object vs a freshly constructed OptimProblem with the same data (stream live*, comp/pricelive.py)']
 RULE = ('random LP portfolios (no booleans), plus a stream of portfolios with MIXED discount rates (some assets wacc = 0, some not, list order shuffled) on horizons of 10-40 steps of up to a day, '
         'plus a stream of portfolios with STRUCTURES (stream struct*): hubs with markets and other assets at 1-3 outer nodes and one or two StructuredAssets wrapping a sub-system with its own price level '
         '(own internal nodes, local priced contracts, loads, storages, limited transports) that has no node to the outside (nodes = [], an island), one, or several external nodes, '
@@ -24,13 +26,25 @@ RULE = ('random LP portfolios (no booleans), plus a stream of portfolios with MI
         'per scenario the exact gap of the reported price table, up to 6 re-optimisations with perturbed nodal right-hand side (both signs) on a copy of the assembled problem, '
         'and 2-4 seed-drawn (node, step, d) for which the portfolio is RE-BUILT by the real code - the same asset objects plus a contract injecting the energy d in [t, t+1) at the node, '
         'set up on the same Timegrid object with the same prices - and re-optimised (statement of the property itself); '
+        'plus a stream of CALL SEQUENCES ON THE HELD PROBLEM OBJECT (stream live*, comp/pricelive.py): a small LP portfolio is set up and optimised, then - as a user does who holds the OptimProblem - '
+        'the right-hand side of a seed-drawn nodal row is lowered by d IN PLACE (item assignment, in-place subtraction, slice assignment) or by binding a new array to op.b, and THE SAME OBJECT '
+        '(or a deepcopy / a pickle round trip / an attribute-wise copy of it taken after one or more solves) is optimised again, with a drawn solver; both signs at one (node, step) with the '
+        'right-hand side restored in between (in place or by a new array, with or without a solve), single injections, injections that are kept (the injected problem becomes the base whose own '
+        'prices are judged next); in between other data a sensitivity study touches are changed the same ways - a cost, a lower / upper bound, the right-hand side or a coefficient of an asset row - '
+        'and the prices are read again from the held object (2-4 blocks per case, 240 cases quick); '
         'non-trivial = some reported nodal price differs across steps or nodes and at least one perturbed problem is feasible; distinct by scenario hash')
-ASSUMPTIONS = ['tolerance 2e-6 * max(1,|V|) on the exact gap and on the re-optimised values (solver accuracy)']
+ASSUMPTIONS = ['tolerance 2e-6 * max(1,|V|) on the exact gap and on the re-optimised values (solver accuracy)',
+               'stream live*: edits keep the problem well formed (shapes, l <= u); in-place edits only on writeable float arrays; an edit that leaves no optimum is taken back; where exactly one of '
+               'held object / fresh problem reports an optimum the pair is repeated with HiGHS before it counts']
 EXPLANATION = ('price_supergradient reduces the property to gap = 0 for the ASSEMBLED problem; the run evaluates the gap of the REPORTED table exactly (rationals), cross-checks by re-optimisation '
                'of the perturbed assembled problem, and evaluates the statement itself on the real code: V(d) of the re-built portfolio with an injection asset against V(0) + price*d '
                '(this also covers what the certificate cannot see: a re-build of the same objects that does not reproduce the original problem). '
                'Rows of type N which the record does not list (none in a consistent problem; reported as a broken tie, component nodal record) are treated as plain equalities '
                'with the solver\'s dual, the reported prices sit on the rows the portfolio itself appended. '
+               'Stream live*: the statement is evaluated for the re-optimisation a user gets from the object he holds - oracle nodal_price_live: value returned by optimize() of the held object '
+               '(and of a freshly constructed OptimProblem carrying the same data) <= V + price*d, V and price from the last solve of the held object without the injection; '
+               'nodal_price_reoptimisation: the held object is optimised as it stands (same value as the fresh problem with the same data and solver; value back at V after the right-hand side is restored); '
+               'nodal_price_gap on every price table read from the held object, against the data it holds at that time (price_supergradient applies to the problem as it stands at the time of the call). '
                'Not generated: LinkedAsset (needs a boolean variable, outside the LP scope of the property)')
 INJ_NAME = 'c18_injection'
 DISC_GRIDS = [('d', 'd', pd.Timedelta(days=1)), ('d', 'h', pd.Timedelta(days=1)), ('d', 'd', pd.Timedelta(days=1)), ('6h', 'd', pd.Timedelta(hours=6)),
@@ -226,6 +240,12 @@ def scenarios(seed, tier):
     _rps = random.Random(seed * 104729 + 1818)
     for i in range(60 if tier == 'quick' else 400):
         yield 'ps%d' % i, {'_stream': 'pricesplit', 'case': PS.gen_case(random.Random(_rps.getrandbits(48)))}
+    # the re-optimisation done by a user who HOLDS the problem object: optimise, change the right-hand side of a nodal row (or a cost,
+    # a bound, an asset row) in place or by replacing the array, optimise the same object (or a deepcopy / pickle of it taken after
+    # a solve) again; judged by the statement itself and against a freshly constructed problem with the same data (comp/pricelive.py)
+    _rpl = random.Random(seed * 104729 + 181801)
+    for i in range(240 if tier == 'quick' else 1500):
+        yield 'live%d' % i, {'_stream': 'live', 'case': PL.gen_case(random.Random(_rpl.getrandbits(48)), tier)}
 
 
 def multipliers(op, res, prices_by_pair):
@@ -296,6 +316,8 @@ def run_case(scn, drv):
         st, ri = PS.run_case(scn['case'], drv)
         return {'evaluated': 1, 'nontrivial': st.get('status') == 'ok' and st.get('intervals', 0) > 1, 'features': ['stream:pricesplit', 'status:' + str(st.get('status'))],
                 'disagreements': [{'component': 'split price table', 'detail': d} for d in st['disagreements']], 'violations': st['violations']}
+    if isinstance(scn, dict) and scn.get('_stream') == 'live':
+        return PL.run_case(scn['case'], drv, multipliers)
     r = {'evaluated': 1, 'nontrivial': False, 'features': [], 'disagreements': [], 'violations': []}
     feats = r['features']
     for a in scn['assets']:
